@@ -35,7 +35,8 @@ EXPLANATION = (
     "(through the public API, steps and inspections), UnpackRule, verifyMatchRule (hook) and path.Clean/Join against the model "
     "(cases.v and extracted OCaml), with queue read-back through appended DISALLOW probes; the oracle is an independent naive Go "
     "re-implementation of the specification's queue algorithm (with its own small glob) applied to clean inputs; thorough tier: "
-    "exhaustive universe 27^3 artifact configurations x all rule lists of length <= 2 over a pool of 24 rules, as material and as product rules.")
+    "exhaustive universe 27^3 artifact configurations x all rule lists of length <= 2 over a pool of 24 rules, as material and as product rules. "
+    "Additional failing-input search (not part of the proof): Go native coverage-guided fuzzing of UnpackRule and VerifyArtifacts against the oracle.")
 
 DRIVER = os.path.join(V.BUILD, 'extract', 'rules', 'rules_driver')
 
@@ -71,6 +72,31 @@ def _build(ctx):
         ctx.notes.append('extraction of the rules model failed (implementation is compared with the oracle only): ' + o[-600:])
         return binp, '-'
     return binp, DRIVER
+
+
+def _go_fuzz(ctx, pkg, target, secs):
+    """as vcommon.Ctx.go_fuzz, but the test binary is built with `-fuzz=.`: without it `go test -c` produces a binary
+    without coverage instrumentation and the fuzzer degrades to blind mutation (to be folded into vcommon)"""
+    import glob, shutil
+    fdir = os.path.join(ctx.dir, 'fuzz-' + target)
+    shutil.rmtree(fdir, ignore_errors=True)
+    os.makedirs(fdir)
+    testbin = os.path.join(V.BUILD if getattr(V, 'ALT', None) else os.path.join(V.HARNESS, 'bin'), pkg + '.fuzzi.test')
+    os.makedirs(os.path.dirname(testbin), exist_ok=True)
+    rc, o = V.sh(['go', 'test', '-c', '-fuzz=.', '-tags', 'verif', '-o', testbin, './' + pkg], cwd=V.HARNESS, env=V.go_env(), timeout=900)
+    if rc != 0:
+        raise V.BuildError('go test -c -fuzz=. ./%s failed:\n%s' % (pkg, o[-2000:]))
+    cache = os.path.join(V.BUILD, 'fuzzcache', pkg, target)
+    os.makedirs(cache, exist_ok=True)
+    rc, o = ctx.run([testbin, '-test.run', '^$', '-test.fuzz', '^' + target + '$', '-test.fuzztime', '%ds' % secs,
+                     '-test.fuzzcachedir', cache, '-test.parallel', '8'], cwd=fdir, timeout=secs + 600)
+    ctx.notes.append('fuzz %s/%s %ds: %s' % (pkg, target, secs, ' | '.join(l.strip() for l in o.strip().split('\n')[-2:])[:300]))
+    if rc == 0:
+        return None
+    files = glob.glob(os.path.join(fdir, 'testdata', 'fuzz', target, '*'))
+    data = open(files[0], 'rb').read().decode('latin-1') if files else ''
+    msg = o[o.find('--- FAIL'):][:3000] if '--- FAIL' in o else o[-3000:]
+    return {'message': msg, 'corpus_file': data}
 
 
 def _oracle_only(path, corr):
@@ -122,6 +148,21 @@ def correspondence(ctx):
         "only. Class labels: <generator>/<how the oracle's run ended>[+consumed = some rule consumed >= 1 artifact]; 'no-oracle' = "
         "input outside the oracle's domain (only model vs implementation). non-trivial = at least one rule (V), distinct rule (U), "
         "non-empty consumed set (M); distinct = distinct input JSON")
+    # coverage-guided differential fuzzing (failing-input SEARCH only, never the proof): UnpackRule against the oracle's
+    # grammar, VerifyArtifacts (verdict + queues read back by probes) against the oracle's queue algorithm inside the
+    # oracle's domain; the fuzzer sees the library's coverage, so a new fast path / special case / helper is a branch it
+    # tries to reach. Seeds: the fixed witnesses of the repaired and seeded defects.
+    secs = 12 if quick else 180
+    corr.extra['fuzz_seconds_per_target'] = secs
+    for target, klass, what in (
+            ('FuzzUnpackRule', 'fuzz-unpack-rule', 'a token list on which UnpackRule differs from the rule grammar of the oracle'),
+            ('FuzzVerifyArtifacts', 'fuzz-verify-artifacts', 'a scenario on which VerifyArtifacts differs from the naive queue algorithm of the oracle')):
+        f = _go_fuzz(ctx, 'c03', target, secs)
+        if f:
+            corr.violations.append({'klass': klass, 'case': {'id': 'fuzz', 'klass': klass,
+                                    'input': {'entry': 'fuzz', 'target': target, 'go_fuzz_corpus_file': f['corpus_file']}},
+                                    'impl': f['message'], 'expected': 'the independent oracle of harness/c03',
+                                    'what': 'coverage-guided differential fuzzing found ' + what})
     if not quick:
         # (c) exhaustive small universe, sharded
         nsh = 16
@@ -166,6 +207,13 @@ def search(ctx, why):
 
 
 def replay(ctx, case):
+    inp = (case.get('case', case) or {}).get('input') or {}
+    if isinstance(inp, dict) and inp.get('entry') == 'fuzz':
+        print('failing input of the fuzz target %s (Go corpus file format):\n%s' % (inp.get('target'), inp.get('go_fuzz_corpus_file')))
+        print('re-run: save it as harness/c03/testdata/fuzz/%s/replay and run `go test -tags verif -run %s/replay ./c03` in /verif/harness'
+              % (inp.get('target'), inp.get('target')))
+        print(case.get('impl', ''))
+        return
     binp, drv = _build(ctx)
     p = os.path.join(ctx.dir, 'replay_case.json')
     json.dump(case.get('case', case), open(p, 'w'))
